@@ -62,10 +62,9 @@ theorem encode_length_mod (url : Bool) : ∀ b : Bytes,
     have h2 : (rest.length + 1 + 1 + 1) % 3 = rest.length % 3 := by omega
     rw [this, h2]; omega
 
-/-- Round trip through authlib's own pair of functions, for every byte string. -/
-theorem urlDecode_urlEncode : ∀ b : Bytes, urlDecode (urlEncode b) = some b := by
+theorem a2b_pad_encode (url : Bool) : ∀ b : Bytes, a2b url (pad (encode url b)) 0 0 0 = some b := by
   have key : ∀ (n : Nat) (b : Bytes), b.length = n →
-      a2b true (pad (encode true b)) 0 0 0 = some b := by
+      a2b url (pad (encode url b)) 0 0 0 = some b := by
     intro n
     induction n using Nat.strongRecOn with
     | _ n ih =>
@@ -75,8 +74,8 @@ theorem urlDecode_urlEncode : ∀ b : Bytes, urlDecode (urlEncode b) = some b :=
       | [a], _ =>
         have ha := UInt8.toNat_lt a
         simp only [encode, pad, List.length_cons, List.length_nil]
-        show a2b true (ch true (a.toNat / 4) :: ch true (a.toNat % 4 * 16) :: [61, 61]) 0 0 0 = _
-        rw [a2b_ch true (by omega), a2b_ch true (by omega)]
+        show a2b url (ch url (a.toNat / 4) :: ch url (a.toNat % 4 * 16) :: [61, 61]) 0 0 0 = _
+        rw [a2b_ch url (by omega), a2b_ch url (by omega)]
         have e1 : UInt8.ofNat (a.toNat / 4 * 4 + a.toNat % 4 * 16 / 16) = a :=
           u8_eq_of_toNat (by omega)
         simp only [e1]
@@ -85,11 +84,11 @@ theorem urlDecode_urlEncode : ∀ b : Bytes, urlDecode (urlEncode b) = some b :=
         have ha := UInt8.toNat_lt a
         have hb := UInt8.toNat_lt b
         simp only [encode, pad, List.length_cons, List.length_nil]
-        show a2b true (ch true (a.toNat / 4) :: ch true (a.toNat % 4 * 16 + b.toNat / 16) ::
-          ch true (b.toNat % 16 * 4) :: [61]) 0 0 0 = _
-        rw [a2b_ch true (by omega), a2b_ch true (by omega)]
+        show a2b url (ch url (a.toNat / 4) :: ch url (a.toNat % 4 * 16 + b.toNat / 16) ::
+          ch url (b.toNat % 16 * 4) :: [61]) 0 0 0 = _
+        rw [a2b_ch url (by omega), a2b_ch url (by omega)]
         simp only []
-        rw [a2b_ch true (by omega)]
+        rw [a2b_ch url (by omega)]
         have e1 : UInt8.ofNat (a.toNat / 4 * 4 + (a.toNat % 4 * 16 + b.toNat / 16) / 16) = a :=
           u8_eq_of_toNat (by omega)
         have e2 : UInt8.ofNat ((a.toNat % 4 * 16 + b.toNat / 16) % 16 * 16 +
@@ -99,16 +98,22 @@ theorem urlDecode_urlEncode : ∀ b : Bytes, urlDecode (urlEncode b) = some b :=
       | a :: b :: c :: rest, hn =>
         have hlen : rest.length < n := by simp at hn; omega
         have ihr := ih rest.length hlen rest rfl
-        have hp : pad (encode true (a :: b :: c :: rest)) =
-            ch true (a.toNat / 4) :: ch true ((a.toNat % 4) * 16 + b.toNat / 16) ::
-            ch true ((b.toNat % 16) * 4 + c.toNat / 64) :: ch true (c.toNat % 64) ::
-            pad (encode true rest) := by
+        have hp : pad (encode url (a :: b :: c :: rest)) =
+            ch url (a.toNat / 4) :: ch url ((a.toNat % 4) * 16 + b.toNat / 16) ::
+            ch url ((b.toNat % 16) * 4 + c.toNat / 64) :: ch url (c.toNat % 64) ::
+            pad (encode url rest) := by
           simp only [pad, encode, List.length_cons, List.cons_append]
-          have : ((encode true rest).length + 1 + 1 + 1 + 1) % 4 = (encode true rest).length % 4 := by
+          have : ((encode url rest).length + 1 + 1 + 1 + 1) % 4 = (encode url rest).length % 4 := by
             omega
           rw [this]
         rw [hp, a2b_quad, ihr]; rfl
   intro b
   exact key b.length b rfl
+
+/-- Round trip through authlib's own pair of functions, for every byte string. -/
+theorem urlDecode_urlEncode (b : Bytes) : urlDecode (urlEncode b) = some b := a2b_pad_encode true b
+
+/-- `base64.b64decode(base64.b64encode(b)) == b` -/
+theorem a2b_stdEncode (b : Bytes) : a2b false (stdEncode b) 0 0 0 = some b := a2b_pad_encode false b
 
 end Model.Base64
